@@ -48,7 +48,7 @@ def parseLexed (l : LexedStr) : Except String TreeResult :=
   | some inp =>
     let kinds := inp.kind.toArray
     let joint := inp.joint.toArray
-    match parseSourceFile (defaultFuel kinds.size) kinds joint noProgressLimit with
+    match parseSourceFile (defaultFuel kinds.size) kinds joint (noProgressLimit kinds.size) with
     | .error (.panic site) => .error ("PANIC " ++ site)
     | .error .fuel => .error "FUEL"
     | .error (.modelError m) => .error ("MODEL-ERROR " ++ m)
